@@ -223,7 +223,8 @@ def e2e_request(ctx, server_port, seen, kind, cid, diff=True):
 def raw_mixed_request(assoc, req, cmd_cid, tail_cid, shape, timeout=2.5):
     """send `req` as ONE P-DATA whose PDVs do not all carry the same context id:
     shape "trailing": the whole message on `cmd_cid`, then one more (empty, last-data-fragment) PDV on `tail_cid`;
-    shape "data": command-set fragments on `cmd_cid`, data-set fragments on `tail_cid`.
+    shape "data": command-set fragments on `cmd_cid`, data-set fragments on `tail_cid`;
+    shape "cmd-split": the command set fragmented, its non-final fragments on `tail_cid`, the final one on `cmd_cid`.
     -> (response item or None, aborted)"""
     import queue as _q
     import time
@@ -234,8 +235,13 @@ def raw_mixed_request(assoc, req, cmd_cid, tail_cid, shape, timeout=2.5):
     msg = _RQ_TO_MESSAGE[type(req)]()
     msg.primitive_to_message(req)
     msg.context_id = cmd_cid
-    pdvs = [list(v) for pd in msg.encode_msg(cmd_cid, 16382) for v in pd.presentation_data_value_list]
-    if shape == "data":
+    pdvs = [list(v) for pd in msg.encode_msg(cmd_cid, 40 if shape == "cmd-split" else 16382) for v in pd.presentation_data_value_list]
+    if shape == "cmd-split":
+        # the command set in several fragments: the earlier ones on `tail_cid`, the last one (and any data set) on `cmd_cid`
+        for v in pdvs:
+            if v[1][0] == 1:
+                v[0] = tail_cid
+    elif shape == "data":
         for v in pdvs:
             if v[1][0] in (0, 2):
                 v[0] = tail_cid
@@ -268,7 +274,7 @@ def layer_e2e_mixed(ctx):
     arrived on: unaccepted there => no handler, no answer, abort, whatever id later PDVs of the same P-DATA carry"""
     seen = []
     server, port = L.start_acceptor(E2E_SUPPORTED, seen)
-    plan = [("cEcho", "trailing"), ("cStore", "data"), ("cStore", "trailing"), ("cFind", "data"), ("nCreate", "trailing"),
+    plan = [("cEcho", "cmd-split"), ("cStore", "cmd-split"), ("nDelete", "cmd-split"), ("cEcho", "trailing"), ("cStore", "data"), ("cStore", "trailing"), ("cFind", "data"), ("nCreate", "trailing"),
             ("nEventReport", "data"), ("nDelete", "trailing")]
     bad_ids = [0, 2, 5, 21, 255]
     if ctx.quick:
